@@ -5,8 +5,17 @@ use crate::construction::heuristics::InsertionContext;
 use std::cell::RefCell;
 use std::rc::Rc;
 
-/// A callback which is called after every applied insertion of the construction heuristic.
-pub type InsertionObserver = Rc<dyn Fn(&InsertionContext)>;
+/// Specifies where an applied insertion is observed.
+#[derive(Clone, Copy, Debug, PartialEq, Eq)]
+pub enum InsertionSite {
+    /// Any applied insertion (construction loop, repair, local operators).
+    Applied,
+    /// The insertion loop of the construction heuristic, right after the insertion is applied.
+    ConstructionLoop,
+}
+
+/// A callback which is called after every applied insertion.
+pub type InsertionObserver = Rc<dyn Fn(&InsertionContext, InsertionSite)>;
 
 thread_local! {
     static OBSERVER: RefCell<Option<InsertionObserver>> = const { RefCell::new(None) };
@@ -17,9 +26,9 @@ pub fn set_insertion_observer(observer: Option<InsertionObserver>) -> Option<Ins
     OBSERVER.with(|o| std::mem::replace(&mut *o.borrow_mut(), observer))
 }
 
-pub(crate) fn on_insertion_applied(insertion_ctx: &InsertionContext) {
+pub(crate) fn on_insertion_applied(insertion_ctx: &InsertionContext, site: InsertionSite) {
     let observer = OBSERVER.with(|o| o.borrow().clone());
     if let Some(observer) = observer {
-        observer(insertion_ctx);
+        observer(insertion_ctx, site);
     }
 }
